@@ -371,6 +371,10 @@ func findTableName(alias, columnName string, expr any) (base.ColumnInfo, error) 
 		for _, targetItem := range selectStmt.GetTargetList() {
 			resTarget := targetItem.GetResTarget()
 			fields := resTarget.GetVal().GetColumnRef().GetFields()
+			if len(fields) == 0 {
+				// the item is not a column reference (literal, function call, expression): no table to resolve through it
+				continue
+			}
 
 			// select t1.col1
 			if targetItem.GetResTarget().GetName() == "" {
